@@ -185,7 +185,7 @@ def run(ctx):
     proofs_ok, detail = vplib.check_proofs(ctx)
     ctx.log("proofs:", proofs_ok, detail[:200])
     rng = ctx.rng
-    nseq, nconc = (210, 90) if ctx.quick else (7000, 3000)
+    nseq, nconc = (210, 90) if ctx.quick else (3500, 1500)
     hs = [gen_history(rng, i, False) for i in range(nseq)] + [gen_history(rng, nseq + i, True) for i in range(nconc)]
     # fixed corner cases first: reuse after attributed, reuse with a fresh record, failing remove + reuse
     fixed = [
